@@ -437,6 +437,8 @@ func (x *Ctx) Exec(c *rosmar.Collection, bucket *rosmar.Bucket, op *GenOp) (a Ar
 				m[k] = v
 			}
 			xb, _ = json.Marshal(m)
+		} else if op.Opt == "emptyx" {
+			xb = []byte(`{}`) // an xattr object without members: no xattrs
 		}
 		if op.Op == "SetWithMeta" {
 			dt := sgbucket.FeedDataTypeRaw
